@@ -14,6 +14,10 @@ DB = {"u64": 64, "u32": 32, "u16": 16, "u8": 8}
 PBITS = {"u8": 8, "u16": 16, "u32": 32, "u64": 64, "u128": 128, "usize": 64, "i8": 8, "i16": 16, "i32": 32, "i64": 64, "i128": 128, "isize": 64}
 
 QUICK_N = (1, 2, 3, 4)
+# the loops most likely to be unrolled by 2 / 4 with a remainder step are also analysed at counts that have a full block AND
+# a remainder (5 = 4 + 1, 6 = 4 + 2, 7 = 4 + 3) already in the quick tier
+QUICK_N_WIDE = (1, 2, 3, 4, 5, 6, 7)
+QUICK_WIDE = ("C01", "C02", "C06", "C07", "C15")
 THOROUGH_N = (1, 2, 3, 4, 5, 6, 7, 8, 9)
 
 
@@ -1257,6 +1261,8 @@ def pairs_for(tier):
 
 def obligations(ctx, prop, tier):
     Ns = QUICK_N if tier == "quick" else THOROUGH_N
+    if tier == "quick" and prop in QUICK_WIDE:
+        Ns = QUICK_N_WIDE
     configs = ["Kd", "Kr"]
     table = {"C01": c01, "C02": c02, "C03": c03, "C05": c05, "C06": c06, "C07": c07, "C08": c08, "C10": c10, "C14": c14, "C15": c15, "C17": c17, "C18": c18, "C19": c19, "C20": c20}
     btable = {"C01": b_c01, "C02": b_c02, "C05": b_c05, "C06": b_c06, "C10": b_c10, "C13": b_c13, "C15": b_c15, "C17": b_c17, "C18": b_c18}
